@@ -19,6 +19,7 @@ import (
 	"log/slog"
 	"math"
 	"os"
+	"regexp"
 	"runtime/debug"
 	"sort"
 	"strconv"
@@ -291,6 +292,10 @@ func (c *v7Cache) Remove(seq int, beginIndex, endIndex int32) error {
 	}
 	if c.h.cfg.window > 0 && endIndex != math.MaxInt32 && beginIndex < endIndex {
 		c.h.swaShifted[seq] = true
+		// length of the sequence right after this shift (ShiftCacheSlot updates slot.Inputs after Remove)
+		if seq >= 0 && seq < len(c.h.srv.cache.slots) {
+			c.h.swaBound[seq] = len(c.h.srv.cache.slots[seq].Inputs) - int(endIndex-beginIndex)
+		}
 		c.h.out.Count("swa_middle_remove")
 	}
 	if endIndex < beginIndex {
@@ -458,6 +463,7 @@ type v7Harness struct {
 	start         time.Time
 	tainted       map[int]bool
 	swaShifted    map[int]bool // a middle Remove (context shift) happened on a sliding-window cache
+	swaBound      map[int]int  // length of the sequence right after that shift
 	pastPrompts   [][]int
 	defragTainted map[int]bool
 
@@ -503,7 +509,11 @@ func (h *v7Harness) tick(t time.Time) int {
 	return int(t.Sub(h.start) / time.Millisecond)
 }
 
-func (h *v7Harness) taintNote(seq int) string {
+func (h *v7Harness) taintNote(seq int) string { return h.taintNoteSWA(seq, true) }
+
+// swaExplains: the failure is of the class a context shift on a sliding-window cache explains (entries missing,
+// nothing wrong or duplicated, all below the length the sequence had right after the shift)
+func (h *v7Harness) taintNoteSWA(seq int, swaExplains bool) string {
 	n := ""
 	if h.tainted[seq] {
 		n += fmt.Sprintf(" [slot %d: after the failed-shift reset Remove(id,0,%d) with end<begin]", seq, h.cfg.resetEnd)
@@ -511,7 +521,7 @@ func (h *v7Harness) taintNote(seq int) string {
 	if h.defragTainted[seq] {
 		n += fmt.Sprintf(" [slot %d: after a defrag whose row movement does not match its cell movement]", seq)
 	}
-	if h.swaShifted[seq] {
+	if h.swaShifted[seq] && swaExplains {
 		n += fmt.Sprintf(" [slot %d: after a context shift (middle Remove) on a sliding-window cache]", seq)
 	}
 	return n
@@ -560,13 +570,30 @@ func (h *v7Harness) checkExposed(bi, tok, pos, seq int, exp []v7Exp) {
 		for _, g := range got {
 			gs = append(gs, fmt.Sprintf("%d@%d", g.tok, g.dpos))
 		}
+		// classes: every entry shown is right (its own position in [lo,pos], the effective input there, once) and
+		// some are missing = "missing-entries"; more entries than positions = "stale-or-duplicate-entries"; else "wrong"
+		present := map[int]bool{}
+		allRight := true
+		for _, g := range got {
+			if g.dpos < lo || g.dpos > pos || present[g.dpos] || g.tok != eff[g.dpos] {
+				allRight = false
+			}
+			present[g.dpos] = true
+		}
 		cls := "wrong"
+		swaExplains := false
 		if len(got) > pos+1-lo {
 			cls = "stale-or-duplicate-entries"
-		} else if len(got) < pos+1-lo {
+		} else if len(got) < pos+1-lo && allRight {
 			cls = "missing-entries"
+			swaExplains = true
+			for k := lo; k <= pos; k++ {
+				if !present[k] && k >= h.swaBound[seq] {
+					swaExplains = false // an entry stored after the shift is missing: not what the shift explains
+				}
+			}
 		}
-		h.l2("exposed-history", fmt.Sprintf("%s: seq %d pos %d sees [%s], effective input (from position %d) is %s%s", cls, seq, pos, strings.Join(gs, " "), lo, v7Ints(eff[lo:pos+1]), h.taintNote(seq)))
+		h.l2("exposed-history", fmt.Sprintf("%s: seq %d pos %d sees [%s], effective input (from position %d) is %s%s", cls, seq, pos, strings.Join(gs, " "), lo, v7Ints(eff[lo:pos+1]), h.taintNoteSWA(seq, swaExplains)))
 	}
 }
 
@@ -578,6 +605,7 @@ func (h *v7Harness) checkCoherent(when string) {
 		rec := v7Toks(sl.Inputs)
 		count := make([]int, len(rec))
 		bad := ""
+		swaExplains := false
 		for loc, c := range cells {
 			has := false
 			for _, s := range c.seqs {
@@ -609,6 +637,7 @@ func (h *v7Harness) checkCoherent(when string) {
 				need := sl.InUse && p >= len(rec)-w
 				if (n > 1 || (need && n != 1)) && bad == "" {
 					bad = fmt.Sprintf("position %d of the record (inside the window of the next position: %v) is stored %d times", p, need, n)
+					swaExplains = n == 0 && p < h.swaBound[sl.Id]
 				}
 				continue
 			}
@@ -617,7 +646,7 @@ func (h *v7Harness) checkCoherent(when string) {
 			}
 		}
 		if bad != "" {
-			h.l2("coherent", fmt.Sprintf("%s: slot %d: %s%s", when, sl.Id, bad, h.taintNote(sl.Id)))
+			h.l2("coherent", fmt.Sprintf("%s: slot %d: %s%s", when, sl.Id, bad, h.taintNoteSWA(sl.Id, swaExplains)))
 		}
 	}
 }
@@ -960,7 +989,7 @@ func (h *v7Harness) finish(i int) {
 }
 
 func v7NewHarness(cfg v7Cfg, out *zzverif.Out) *v7Harness {
-	h := &v7Harness{cfg: cfg, out: out, tainted: map[int]bool{}, swaShifted: map[int]bool{}, defragTainted: map[int]bool{}, shiftedSlot: map[int]bool{}}
+	h := &v7Harness{cfg: cfg, out: out, tainted: map[int]bool{}, swaShifted: map[int]bool{}, swaBound: map[int]int{}, defragTainted: map[int]bool{}, shiftedSlot: map[int]bool{}}
 	var shift func(ctx ml.Context, layer int, key, shift ml.Tensor) (ml.Tensor, error)
 	if cfg.canShift {
 		shift = v7Shift
@@ -1064,18 +1093,34 @@ func (h *v7Harness) run(next func() *v7Event) {
 	h.out.Case(line, strings.Join(h.obs, " | "))
 	h.out.Count("cases")
 	h.out.Add("events", len(h.events))
+	// one record per (kind, shape of the detail incl. its taint notes) per history: a known failure must not hide
+	// a later, different failure of the same kind in the same history (classification happens in the check)
 	seen := map[string]bool{}
+	perKind := map[string]int{}
 	for _, f := range h.fails {
-		// one record per (kind, first detail) per history is enough to replay
-		if seen[f[0]] {
+		k := v7DedupKey(f[0], f[1])
+		if seen[k] || perKind[f[0]] >= 8 {
 			continue
 		}
-		seen[f[0]] = true
+		seen[k] = true
+		perKind[f[0]]++
 		h.out.L2(f[0], line, f[1])
 	}
 	if len(h.fails) > 0 {
 		h.out.Count("histories_with_l2_failure")
 	}
+}
+
+var (
+	v7ReNum  = regexp.MustCompile(`-?\d+`)
+	v7ReList = regexp.MustCompile(`(#@# ?)+|(#,)+#`)
+)
+
+// shape of an L2 record: kind + detail with numbers and lists of numbers collapsed
+func v7DedupKey(kind, detail string) string {
+	d := v7ReNum.ReplaceAllString(detail, "#")
+	d = v7ReList.ReplaceAllString(d, "#")
+	return kind + "|" + d
 }
 
 // ------------------------------------------------------------------ generator
